@@ -10,6 +10,7 @@ import (
 	"fmt"
 	"reflect"
 	"runtime"
+	"sort"
 	"strings"
 	"unsafe"
 )
@@ -117,7 +118,16 @@ func write(b *strings.Builder, v reflect.Value, skip map[string]bool, depth int)
 	case reflect.String:
 		fmt.Fprintf(b, "%q", v.String())
 	case reflect.Map:
-		fmt.Fprintf(b, "map#%d", v.Len())
+		// content matters (e.g. the enum scanner's set of values seen so far)
+		var ks []string
+		it := v.MapRange()
+		for it.Next() {
+			var kb strings.Builder
+			write(&kb, it.Key(), skip, depth+1)
+			ks = append(ks, kb.String())
+		}
+		sort.Strings(ks)
+		b.WriteString("map[" + strings.Join(ks, ";") + "]")
 	case reflect.Interface:
 		if v.IsNil() {
 			b.WriteString("nil")
